@@ -719,23 +719,33 @@ def epoch_describe(ex, h, line, bad):
         d = 'the execution did not complete (status %s)' % ex.status
     else:
         d = 'unexplained event %s' % info
-    # stall signature for the known finding D6: a worker preempted inside guard creation / the list walk while the
-    # coordinator ran >= 256 forwards
+    # signature of the known finding D6: the guard creation (gcall .. gret) that precedes the rejected event overlaps
+    # at least two different ForwardGlobalEpoch calls (the worker was stalled between reading the global epoch and
+    # holding its list while the coordinator moved on)
     sig = ['ev:' + str(k), 'status:' + ex.status]
-    nf = 0
-    maxf = 0
+    t_bad = bad.get('t', -1)
+    active = False
     inside = False
+    overlap = 0
+    best = 0
     for e in h[:line + 1]:
-        if e['e'] == 'gcall':
+        ek = e['e']
+        if ek == 'fcall':
+            active = True
+            if inside:
+                overlap += 1
+        elif ek == 'fdone':
+            active = False
+        elif ek == 'gcall' and e.get('t') == t_bad:
             inside = True
-            nf = 0
-        elif e['e'] == 'gret':
+            overlap = 1 if active else 0
+        elif ek == 'gret' and e.get('t') == t_bad:
             inside = False
-        elif e['e'] == 'fdone' and inside:
-            nf += 1
-            maxf = max(maxf, nf)
-    if maxf >= 256:
-        sig.append('stall>=256-forwards-inside-guard-creation')
+            best = overlap
+    if inside:
+        best = overlap
+    if best >= 2:
+        sig.append('guard-creation-overlaps>=2-forwards')
     return d, sig
 
 
@@ -772,6 +782,8 @@ def epoch_programs(tier, which):
                          ep_prog('ep_stall_b', 3, ['BAR:1:2 G D GL RL D', 'FQ:300 BAR:1:2 FQ:300 F FQ:300 F'])],
                      dict(pb=1 if q else 2, max_exec=60 if q else 600)))
         plan.append((3, [ep_prog('ep_cross_b', 3, ['GL RL D GL RL D', 'FQ:253 F F F F'])], dict(pb=1, max_exec=60 if q else 400)))
+        # the same race at a node boundary: the worker reads epoch 767 (last of its range), two forwards follow
+        plan.append((3, [ep_prog('ep_edge_a', 3, ['BAR:1:2 GL RL D', 'FQ:511 BAR:1:2 F F F'])], dict(pb=2, max_exec=150 if q else 1500)))
     return plan
 
 
@@ -1258,3 +1270,53 @@ def wrap_l2_id(prop, want):
 wrap_l2_id('C05', {'UniqueIDs', 'InRange'})
 wrap_l2_id('C14', {'FlagsOK', 'FreeAtEnd', 'NoDeadlock', 'GetsID', 'Termination'})
 wrap_l2_id('C15', {'HBUnique', 'HBAlive', 'HBDead'})
+
+
+def add_level2_epoch(res, prop, tier, seed, group):
+    cov = res['coverage']
+    notes = res.setdefault('notes', [])
+    conf = level2.id_conformance(2, tier, seed)        # the exit order is a fact about IDManager's exit path
+    order = conf['exit_order']
+    entry = {'exit_order_observed': order, 'id_conformance_ok': conf['ok'], 'model_checking': []}
+    cov['level2'] = entry
+    if order == 'mixed' or not conf['ok']:
+        msg = 'MODEL-DRIFT property=%s: the thread-exit path no longer follows IdImpl; EpochImpl is not instantiated' % prop
+        log(msg)
+        notes.append(msg)
+        return
+    for r in level2.epoch_model_check(group, tier, order):
+        entry['model_checking'].append({k: r[k] for k in ('tag', 'ok', 'violated', 'states', 'transitions', 'wall', 'invariants',
+                                                           'properties', 'constraint', 'consts', 'cex_overlapped_forwards')})
+        cov['states'] += r['states']
+        cov['transitions'] += r['transitions']
+        if not r['violated']:
+            continue
+        if group == 'list' and (r['cex_overlapped_forwards'] or 0) >= 2:
+            notes.append('EpochImpl (%s): TLC reproduces the known finding D6 in the model (%s violated by a guard creation that '
+                         'overlaps %d forwards)' % (r['tag'], r['violated'], r['cex_overlapped_forwards']))
+            continue
+        confirmed = bool(res['violations'])
+        msg = ('EpochImpl (%s, exit order %s as observed): TLC reports %s violated; %s'
+               % (r['tag'], order, r['violated'], 'real executions violating the property were found as well' if confirmed else
+                  'no explored real execution shows it (MODEL-DRIFT, not reported)'))
+        log(msg)
+        notes.append(msg)
+
+
+def wrap_l2_epoch(prop, group):
+    inner = REGISTRY[prop]
+
+    def check(prop_, tier, seed):
+        res = inner(prop_, tier, seed)
+        add_level2_epoch(res, prop_, tier, seed, group)
+        res['assumptions'] = list(res.get('assumptions', [])) + [
+            'Level 2: EpochImpl (list-node capacity 2, 1-3 workers, 3-6 forwards, thread exit and ID reuse) is model-checked with the '
+            'thread-exit order observed in the running code; its binding to the code is through that parameter and through the '
+            'API-level trace validation above (no step-level conformance for the epoch manager)']
+        return res
+    REGISTRY[prop] = check
+
+
+wrap_l2_epoch('C04', 'pin')
+wrap_l2_epoch('C16', 'mono')
+wrap_l2_epoch('C17', 'list')
